@@ -83,7 +83,11 @@ class RealRays(BaseRays):
         self.z += t * self.N
 
         if material is not None:
-            k = material.k(self.w)
+            try:
+                k = material.k(self.w)
+            except ValueError:
+                # catalogue entry without extinction data: not absorbing
+                k = 0.0
             alpha = 4 * np.pi * k / self.w
             self.i *= np.exp(-alpha * t * 1e3)  # mm to microns
 
